@@ -1047,13 +1047,16 @@ func c13Lenient(r *rand.Rand) Case {
 func init() {
 	register(&Prop{
 		ID:   "C13",
-		Rule: "kinds: set (data documents x payload maps x target paths absent/leaf/container/list item/root x strategies merge/replace/unset/unknown, missing data), template (tiny templates, target paths incl. list items; parseAs yaml, trim with and without parseAs on whitespace-significant text, and failing templates Go side), patch (JSON patch operations decoded from YAML through PatchOp vs the C09 model; a third of the value-carrying ops also or only give valueFrom: an immediate value wins, alone it is the node at that path), import (text / binary / default / invalid mode of arbitrary bytes, at a path or the root), export (yaml/json/properties/text/unknown x whole document / unresolved / leaf / list / container: documented default or error, never a panic; outcome classified from the written file), roundtrip (export a subtree as yaml|json, import it elsewhere: equal up to the bare codec's normalisation), env (variables under a unique prefix x include/exclude prefixes x path), lenient (strings without '{{', unbalanced braces, failing actions). Every op: data outside the target unchanged (Go side). Non-trivial: target exists / export of a non-container / partial env selection / failing render. Distinct by Gallina term. Export: file and path immediate or as {ref: ...}, executed directly or as a forEach body; env: a second op with an unanchored / end-anchored pattern while other variables' values spell the names. Patch pointers ending in an empty token; imports of content beginning with a byte order mark; set payloads mirroring the target with members null; one export operation executed twice after its referenced leaves changed. Member names ending in '/' and '~' under patch; dotted and empty member names in YAML rendered by a template operation. template(parseAs yaml) with a failing template must return the error and leave the data readable; RenderMapLenient agrees with RenderLenient on every leaf. template(parseAs yaml) whose rendered text is an empty document, holds anchors and aliases (an alias is a copy: edits of one expansion do not show in another) or an alias into its own anchor. Every 20th case (template-file): templateFile with a tiny template in a file (sometimes missing), file/output names empty or templates themselves, no path / a mapping / a leaf / a list / nothing at the path, a longer stale output file in place: output file content or error vs template_file_op, data untouched. Every 40th case (template-funcs): the template functions dom2yaml, toYaml, dom2properties, unflatten, isEmpty, fileExists, isDir, glob, fileGlob, urlParseQuery, tpl render what the wrapped function gives.",
+		Rule: "kinds: set (data documents x payload maps x target paths absent/leaf/container/list item/root x strategies merge/replace/unset/unknown, missing data), template (tiny templates, target paths incl. list items; parseAs yaml, trim with and without parseAs on whitespace-significant text, and failing templates Go side), patch (JSON patch operations decoded from YAML through PatchOp vs the C09 model; a third of the value-carrying ops also or only give valueFrom: an immediate value wins, alone it is the node at that path), import (text / binary / default / invalid mode of arbitrary bytes, at a path or the root), export (yaml/json/properties/text/unknown x whole document / unresolved / leaf / list / container: documented default or error, never a panic; outcome classified from the written file), roundtrip (export a subtree as yaml|json, import it elsewhere: equal up to the bare codec's normalisation), env (variables under a unique prefix x include/exclude prefixes x path), lenient (strings without '{{', unbalanced braces, failing actions). Every op: data outside the target unchanged (Go side). Non-trivial: target exists / export of a non-container / partial env selection / failing render. Distinct by Gallina term. Export: file and path immediate or as {ref: ...}, executed directly or as a forEach body; env: a second op with an unanchored / end-anchored pattern while other variables' values spell the names. Patch pointers ending in an empty token; imports of content beginning with a byte order mark; set payloads mirroring the target with members null; one export operation executed twice after its referenced leaves changed. Member names ending in '/' and '~' under patch; dotted and empty member names in YAML rendered by a template operation. template(parseAs yaml) with a failing template must return the error and leave the data readable; RenderMapLenient agrees with RenderLenient on every leaf. template(parseAs yaml) whose rendered text is an empty document, holds anchors and aliases (an alias is a copy: edits of one expansion do not show in another) or an alias into its own anchor. Every 20th case (template-file): templateFile with a tiny template in a file (sometimes missing), file/output names empty or templates themselves, no path / a mapping / a leaf / a list / nothing at the path, a longer stale output file in place: output file content or error vs template_file_op, data untouched. Every 10th case (yaml-node): random flow-style YAML with anchors, aliases (also into an anchor that is still open), empty documents and repeated member names, parsed by yaml.v3 into a node tree: dom.YamlNodeDecoder of it vs decode_root of Model/YamlNode.v. Every 40th case (template-funcs): the template functions dom2yaml, toYaml, dom2properties, unflatten, isEmpty, fileExists, isDir, glob, fileGlob, urlParseQuery, tpl render what the wrapped function gives.",
 		Gen: func(r *rand.Rand, tier string, idx int) Case {
 			if idx%40 == 39 { // the template functions that wrap library and standard-library functions
 				return c13TemplateFuncs(r, idx)
 			}
 			if idx%20 == 13 {
 				return c13TemplateFile(r, idx)
+			}
+			if idx%20 == 2 || idx%20 == 12 {
+				return c13YamlNode(r, idx)
 			}
 			switch idx % 10 {
 			case 0, 1, 2:
